@@ -72,6 +72,10 @@ def evaluate(contract, args: dict, allow_pre_fail=False):
     from pyvc.engine_native import call_fn, call_by_name_native
 
     obs = {"failed_clauses": [], "pre_ok": True}
+    if contract.native_oracle is not None and contract.kind == "lemma":
+        obs["failed_clauses"] = list(contract.native_oracle(args))
+        obs["oracle"] = "native oracle of the lemma"
+        return obs
     if contract.native_oracle is not None:
         fn, cls = raw_callable(contract.fn)
 
